@@ -4,6 +4,10 @@ Proof: lean/Reduino/Props/C05.lean (emit()'s two-pass assembly: configure-before
 first and once, nothing configured in loop(); plus the C01 theorems for the split itself and the break guard).
 Tie T/S_c: the order of use / statement / poll events the model predicts for `setup(); loop() x N` vs the compiled sketch's
 trace, on random device sets declared before the main loop or at the top of its body.
+Proof (W4): lean/Reduino/Props/C05Pins.lean on the pin-level model Lang/AssemblePins.lean (which pin gets which mode where, which pin a
+command touches under re-binding): configured_before_touch / pin_configured_before_use, no_mode_conflict, rebinding_configures_new_pin,
+housekeeping_first_once, for all programs satisfying the decidable DocumentedPins and all N; tied by "pin-level assembly (AssemblePins.run vs
+compiled sketch)" on the same generated scripts plus hand-written re-binding shapes.
 Oracle: temporal monitors on the firmware trace (every pin/peripheral event preceded by its configuration, no pin
 re-configured to another mode, one poll per button per pass before user code, prologue once / body per pass in order)."""
 from __future__ import annotations
@@ -19,6 +23,8 @@ TRUSTED = [
     "Lean 4.33 kernel; axioms ⊆ {propext, Classical.choice, Quot.sound}",
     "the abstraction of a script to its top-level items (declaration / use / other statement) is built by the harness together with the script",
     "mock core + host g++: what a peripheral does once configured is the mock's",
+    "pin-level tie (W4): the projection of a mock-core trace line to the alphabet of AssemblePins.Ev (pm / dw,aw,tone -> write / dr,ar,pulsein -> read / servo.attach / servo.write / lcd.init,begin / serial.begin), and the pins each generated constructor call names, are the harness's",
+    "pin-level theorems are about Lang/AssemblePins.run; they reach the emitter only through that tie (random device sets + hand-written re-binding shapes), for the one command per device kind the tie uses",
 ]
 HEAD = ("from Reduino.Actuators import Led, RGBLed, Servo, DCMotor, Buzzer\nfrom Reduino.Sensors import Button, Potentiometer, Ultrasonic\nfrom Reduino.Displays import LCD\n"
         "from Reduino.Communication import SerialMonitor\nfrom Reduino.Utils import sleep\n")
@@ -453,7 +459,7 @@ def break_guard(ctx):
 
 
 def run(ctx: Ctx) -> int:
-    ctx.prove(["Reduino.Props.C05"])
+    ctx.prove(["Reduino.Props.C05", "Reduino.Props.C05Pins"])
     common.fresh_import()
     rng = ctx.rng
     cases = [gen(rng, force=(k, pl)) for k in sorted(LOOP_OK | {"buzzer"}) for pl in (("setup", "loop") if k in LOOP_OK else ("setup",))]
